@@ -71,7 +71,8 @@ class UICheck(Check):
     technique = ("TLA+ UI model (UI.tla) with TLC-checked navigation machine; scripted sessions replayed into the real UI; "
                  "recorded projections validated by the TLA+ trace specification")
     trusted = ["Go harness facade: input scripting, stdout capture, text tokeniser, literal substring test", "TLC, CommunityModules Json"]
-    mc = [("UI_MC", "UI_MC")]
+    mc = [("UI_MC", "UI_MC"), ("UISession_MC", "UISession_MC")]
+    mc_thorough = [("UISession_MC", "UISession_MC_14")]
     whys = None
     # the model also says how the mode stack evolves, which lines a view shows and that the emulator's cursor
     # follows the instruction pointer; these are checked on every session and reported, but belong to no listed property
